@@ -18,7 +18,11 @@ def one(patch):
                 return patch, ["DOES NOT APPLY: " + (r.stderr or r.stdout)[:200]]
         noisy = []
         for pid in ALL:
-            c = subprocess.run([os.path.join(V, "check"), pid, "quick"], cwd=V, env=dict(os.environ, VERIF_REPO=tmp), capture_output=True)
+            try:
+                c = subprocess.run([os.path.join(V, "check"), pid, "quick"], cwd=V, env=dict(os.environ, VERIF_REPO=tmp), capture_output=True, timeout=int(os.environ.get("CHECK_TIMEOUT", "400")))
+            except subprocess.TimeoutExpired:
+                noisy.append(f"{pid} TIMEOUT")
+                continue
             out = c.stdout.decode("utf-8", "replace")
             if c.returncode != 0:
                 keys = re.findall(r"key: ([^\n]*)", out)
